@@ -104,7 +104,9 @@ def run_case(case):
     if case.get("error"):
         return {"inconclusive": [case["error"]]}
     pid = case["pid"]
-    work = tempfile.mkdtemp(prefix="vt-ride-", dir=os.environ.get("VERIF_OUT") or None)
+    base = os.path.join(os.environ.get("VERIF_OUT") or VERIF, ".work")  # same scratch area as vt/run.py, never /tmp
+    os.makedirs(base, exist_ok=True)
+    work = tempfile.mkdtemp(prefix="vt-ride-", dir=base)
     outf = os.path.join(work, "ride.json")
     argf = os.path.join(work, "ids.txt")
     try:
